@@ -151,6 +151,8 @@ type endEv struct {
 	Pairs    []int  `json:"pairs"`
 	NumSites int    `json:"num_sites"`
 	NumLabel int    `json:"num_labels"`
+	// digests of the fixed cross-process canary program, keyed "op/kind" (must agree between all workers of a check)
+	Canary map[string]string `json:"canary,omitempty"`
 	// executed (non-skipped) library operations per operation name and object kind, concurrent world only
 	OpCounts map[string]map[string]int `json:"op_counts"`
 	OpOnly   bool                      `json:"op_only"`
@@ -167,7 +169,10 @@ type ReplayFile struct {
 	Runs         []*RunSpec  `json:"runs"`
 	Violation    []Violation `json:"violation"`
 	RaceReport   string      `json:"race_report,omitempty"`
-	Note         string      `json:"note,omitempty"`
+	// O7 (cross-process canary): two worker batches whose canary digests must agree and do not
+	CanaryBatches []CanaryBatch `json:"canary_batches,omitempty"`
+	CanaryKeys    []string      `json:"canary_keys,omitempty"`
+	Note          string        `json:"note,omitempty"`
 }
 
 // Names of operations (index = Op.K) and of object kinds (index = ObjSpec.Kind).
@@ -180,3 +185,12 @@ var kindNames = [...]string{"SenderReport", "ReceiverReport", "SourceDescription
 	"TransportLayerNack", "RapidResynchronizationRequest", "TransportLayerCC", "CCFeedbackReport",
 	"PictureLossIndication", "SliceLossIndication", "ReceiverEstimatedMaximumBitrate", "FullIntraRequest",
 	"ExtendedReport", "RawPacket", "CompoundPacket"}
+
+// CanaryBatch identifies one worker batch of an O7 replay file.
+type CanaryBatch struct {
+	Seed   uint64 `json:"seed"`
+	Runs   int    `json:"runs"`
+	Race   bool   `json:"race"`
+	Tier   string `json:"tier"`
+	NoCold bool   `json:"nocold,omitempty"`
+}
